@@ -103,8 +103,9 @@ def correspondence(ctx):
     entries, skipped = [], 0
     for t in trees:
         frac = rng.random() < 0.1
+        style = ul.rand_style(rng, 0.6)
         try:
-            obs = ul.run_tree([], t, frac)
+            obs = ul.run_tree([], t, frac, style=style)
         except ul.CaseInvalid:
             skipped += 1
             continue
@@ -129,7 +130,9 @@ def correspondence(ctx):
 
         def mk(enc, t=t, obs=obs, shown=shown, frac=frac):
             return "((@nil event), {}, {}, {}, {})".format(enc.tree(t), enc.obs(obs), enc.opt_umap(shown), coq_bool(frac))
-        entries.append((mk, {"kind": "tree", "case": {"history": [], "tree": t, "frac": frac}}))
+        entries.append((mk, {"kind": "tree", "case": {"history": [], "tree": t, "frac": frac, "style": style}}))
+        for k_, v_ in (style or {"plain": 1}).items():
+            res.count("style:{}={}".format(k_, v_))
     op_entries = []
     for _ in range(ctx.n(400, 4000)):
         h, op, args = gen_operate_case(rng)
@@ -175,9 +178,9 @@ def check_case(case):
         core.fresh_impl()
         why = None
         for c in case["session"]:
-            why = ul.oracle_check(c.get("history", []), c["tree"], c.get("frac", False))
+            why = ul.oracle_check(c.get("history", []), c["tree"], c.get("frac", False), c.get("style"))
         return "after {} earlier operation(s) in the same interpreter: {}".format(len(case["session"]) - 1, why) if why else None
-    return ul.oracle_check(case.get("history", []), case["tree"], case.get("frac", False))
+    return ul.oracle_check(case.get("history", []), case["tree"], case.get("frac", False), case.get("style"))
 
 
 def fails_alone(case):
@@ -215,7 +218,7 @@ def search(ctx, suspects, budget):
     d1, d2 = exhaustive_trees(ctx)
     fam = d1 + d2
     stride = max(1, len(fam) // ctx.n(1500, 12000))
-    todo += [{"history": [], "tree": t, "frac": False} for t in fam[::stride]]
+    todo += [{"history": [], "tree": t, "frac": False, "style": ul.rand_style(rng, 0.7)} for t in fam[::stride]]
     n = 0
     core.fresh_impl()
     journal = []
@@ -226,7 +229,7 @@ def search(ctx, suspects, budget):
             break
         else:
             case = {"history": [], "tree": ul.rand_tree(rng, rng.choice([1, 2, 2, 3, 4]), oracle_leafgen, p_other=0.0),
-                    "frac": rng.random() < 0.1}
+                    "frac": rng.random() < 0.1, "style": ul.rand_style(rng, 0.5)}
         n += 1
         if case.get("history"):
             continue
